@@ -162,7 +162,10 @@ def run(seed, tier, replay=None):
         if pl["pre"] != "ok":
             rep.count("precheck=" + pl["pre"])
             # C11's domain; here only the correspondence of the exception class
-            if out["outcome"] != "exc" or (out["exc"]["cls"] != pl["pre"] and pl["pre"] in F.CONFORMING):
+            if pl["pre"] not in F.CONFORMING:
+                rep.skip("modelled_defect_before_the_loop(" + pl["pre"] + "):decided_by_C11")
+                continue
+            if out["outcome"] != "exc" or out["exc"]["cls"] != pl["pre"]:
                 rep.disagree(op="precheck", note="model predicts an exception before the loop, the code does not raise it",
                              input=inp, model=pl["pre"], observed=out.get("exc", out.get("result")))
             continue
@@ -247,14 +250,15 @@ def run(seed, tier, replay=None):
                     rep.skip("library_cdf_not_monotone_across_bucket_edges")
                     continue
                 rep.case(("objective", ci, pi, j), sample=dict(op="objective", case=case, theta=th, code=fc, model=fm, spec=fs))
-                ok_spec = F.rel_close(fc, fs)
+                fa = sp["f_spec_alt"][j]
+                ok_spec = F.rel_close(fc, fs) or (fa is not None and F.rel_close(fc, fa))
                 ok_model = fm is not None and F.rel_close(fc, fm)
                 if not ok_spec and all(isinstance(x, float) and math.isfinite(x) for x in (fc, fs)) \
-                        and math.isfinite(sp["scale"][j]) and abs(fc - fs) <= 1e-7 * sp["scale"][j] \
-                        and max(abs(fc), abs(fs)) <= 1e-6 * sp["scale"][j]:
-                    # the value is a cancellation of terms a million times larger: 1e-7 relative to the value
-                    # is below the rounding noise of the sum itself
-                    rep.skip("objective_is_a_cancellation_to_zero(compared_relative_to_the_sum_of_|terms|)")
+                        and math.isfinite(sp["scale"][j]) and abs(fc - fs) <= 1e-13 * (1.0 + sp["scale"][j]):
+                    # both values are (nearly) zero by cancellation / log of a spacing within an ulp of 1: the
+                    # difference is the rounding noise of the sum itself (~1e-16 per term), to which a tolerance
+                    # relative to the *value* cannot apply
+                    rep.skip("objective_difference_within_rounding_noise_of_the_sum(<=1e-13*(1+sum|terms|))")
                     continue
                 if ok_spec:
                     if not ok_model:
@@ -269,7 +273,8 @@ def run(seed, tier, replay=None):
                                  "objective by more than 1e-7 relative"
                                  + ("" if key_ is None else f" [{key_}]"),
                             input=dict(inp, convex=convexs[pi], theta=th),
-                            expected=dict(spec_objective=fs, spec_edges=sp["zs"], spec_counts=sp["counts"], n=pl["n"]),
+                            expected=dict(spec_objective=fs, spec_edges=sp["zs"], spec_counts=sp["counts"], n=pl["n"],
+                                          **({"alternative_reading": dict(objective=fa, counts=sp["alt"][0])} if fa is not None else {})),
                             observed=dict(code_objective=fc, model_loss=fm, model_ks=b["ks"], side_A=b["A"], side_B=b["B"]),
                             call=f"{'Noisy' if case['cls'] == 'noisy' else ''}QuadraticDistribution.fit -> objective(theta)",
                             **({"finding_key": key_} if key_ else {}))
@@ -287,19 +292,19 @@ def run(seed, tier, replay=None):
                      if "error" not in sp_]
             if any(not fl_["hyps"] for fl_ in flags):
                 funs = [sp_["f_spec"][0] for sp_ in out["passes"]]
-                sel_spec = spec_selection(case, m, funs)
+                funs_alt = [sp_["f_spec"][0] if sp_["f_spec_alt"][0] is None else sp_["f_spec_alt"][0] for sp_ in out["passes"]]
+                sels = [spec_selection(case, m, funs), spec_selection(case, m, funs_alt)]   # both admissible readings
                 r = out["result"]
                 rep.case(("returned-nb0", ci))
-                if sel_spec is None:
-                    key_ = next((finding_key(fl_) for fl_ in flags if not fl_["hyps"]), None)
+                key_ = next((finding_key(fl_) for fl_ in flags if not fl_["hyps"]), None)
+                if all(sl is None for sl in sels):
                     col.violate(what="fit returned a distribution although the documented objective is infinite for every "
                                      "admissible shape" + (f" [{key_}]" if key_ else ""), input=inp, observed=r,
                                 expected="OptimizationError", **({"finding_key": key_} if key_ else {}))
-                elif r["convex"] != convexs[sel_spec["idx"]]:
-                    key_ = next((finding_key(fl_) for fl_ in flags if not fl_["hyps"]), None)
+                elif not any(sl is not None and r["convex"] == convexs[sl["idx"]] for sl in sels):
                     col.violate(what="the returned shape is not the one with the lowest documented objective"
                                      + (f" [{key_}]" if key_ else ""), input=inp, observed=r,
-                                expected=dict(convex=convexs[sel_spec["idx"]], objective_per_shape=funs),
+                                expected=dict(objective_per_shape=funs, alternative_reading=funs_alt),
                                 **({"finding_key": key_} if key_ else {}))
                 continue
         if pred[0] == "exc":
@@ -311,6 +316,11 @@ def run(seed, tier, replay=None):
                                  model=pred[1], observed=out.get("exc", out.get("result")))
             continue
         rep.count("model_outcome=ok")
+        if F.spec_infeasible(out):
+            # the stub's finite `fun` is a fiction here: per the documented objective every run of such a pass is
+            # infinite.  What the objective is there is judged above (probe points); the outcome is C11's clause.
+            rep.skip("returned_object_not_judged(documented_objective_infinite_for_a_whole_pass)")
+            continue
         rep.case(("returned", ci), sample=dict(op="returned", case=case, model=pred[1], code=out.get("result")))
         sel = pred[1]
         if spec_sel is not None and (spec_sel["idx"] != sel["idx"] or any(not F.feq(spec_sel[k], sel[k]) for k in "abco")):
@@ -418,10 +428,12 @@ def real_checks(col, rep, tasks, outs):
         funs = [c["result_fun"] for c in calls]
         bi = 0 if not (funs[1] < funs[0]) else 1
         want = F._params_of(case, calls[bi]["result_x"])
+        wantc = F._params_of(case, [min(max(x, b_[0]), b_[1]) for x, b_ in zip(calls[bi]["result_x"], calls[bi]["bounds"])])
         r = out["result"]
         rep.case(("real-returned", task["gen_seed"]))
         keys = "abc" if case["cls"] == "quad" else "abco"
-        if any(not F.feq(r[k], want[k]) for k in keys) or r["convex"] != convexs[bi]:
+        # (the optimiser's vector, or that vector clipped into the box it was given)
+        if any(not (F.feq(r[k], want[k]) or F.feq(r[k], wantc[k])) for k in keys) or r["convex"] != convexs[bi]:
             col.violate(what="the returned distribution is not the lowest-objective optimiser run", input=inp,
                         expected=dict(want, convex=convexs[bi]), observed=r, runs=[dict(fun=f, x=c["result_x"]) for f, c in zip(funs, calls)])
         # objective at the generating parameters (evaluated through the Spec objective = the captured one up to 1e-7,
